@@ -784,3 +784,58 @@ func TestScenarioCloseDuringImplicitTLSHandshake(t *testing.T) {
 func smtpHandlerAlive() bool {
 	return bytes.Contains(allStacks(), []byte("go-smtp.(*Server).handleConn"))
 }
+
+// ---- a listener whose Close returns an error (seed C20G) ----
+//
+// Server.Close / Shutdown remember the error, carry on and return it at the
+// end: Close still ends the connection that is being served, Shutdown still
+// waits for it.  (A Close / Shutdown that returns AT the error leaves the
+// connection served on a server that answers ErrServerClosed from then on.)
+
+func scenarioListenerCloseError(t *testing.T, mode string, shutdown bool) {
+	e := scStart(t, newScBackend(), false)
+	e.l.mu.Lock()
+	e.l.failClose = mode
+	e.l.mu.Unlock()
+	e.send("EHLO x\r\n")
+	e.expect("250")
+	e.send("MAIL FROM:<a@b>\r\n")
+	e.expect("250")
+	if !shutdown {
+		if err := e.s.Close(); err != errLifeLisClose {
+			t.Errorf("Close returned %v, want the listener's error", err)
+		}
+		select {
+		case <-e.sc.closed:
+		case <-time.After(300 * time.Millisecond):
+			t.Errorf("Close returned (the listener's Close failed) and left the connection open")
+		}
+		e.finish(false)
+		return
+	}
+	ret := make(chan error, 1)
+	go func() { ret <- e.s.Shutdown(context.Background()) }()
+	select {
+	case err := <-ret:
+		t.Errorf("Shutdown returned %v (the listener's Close failed) with an active connection", err)
+		ret <- err
+	case <-time.After(30 * time.Millisecond):
+	}
+	e.send("RCPT TO:<c@d>\r\n") // the connection is not interrupted
+	e.expect("250")
+	e.send("QUIT\r\n")
+	e.expect("221")
+	select {
+	case err := <-ret:
+		if err != errLifeLisClose {
+			t.Errorf("Shutdown returned %v, want the listener's error", err)
+		}
+	case <-time.After(scWatchdog):
+		e.hang("Shutdown did not return after the last connection finished")
+	}
+	e.finish(false)
+}
+
+func TestScenarioListenerCloseErrorClose(t *testing.T)       { scenarioListenerCloseError(t, "once", false) }
+func TestScenarioListenerCloseErrorCloseAlways(t *testing.T) { scenarioListenerCloseError(t, "always", false) }
+func TestScenarioListenerCloseErrorShutdown(t *testing.T)    { scenarioListenerCloseError(t, "once", true) }
